@@ -147,6 +147,23 @@ func runC14(r *simkit.R) {
 		target = mode.DegradedReadOnly
 	}
 	var serr error
+	if r.Bool(35) {
+		// the read-only mode is entered from degraded read-write (writable, no metabase), with
+		// objects written in between: they sit in the write-cache / blob storage only
+		w.exclusive("setmode-degraded", func() { serr = w.sh.SetMode(mode.Degraded) })
+		r.Op("set mode %s -> %v", mode.Degraded, errS(serr))
+		if serr == nil {
+			for i, k := 0, 1+r.Intn(2); i < k; i++ {
+				id := r.Intn(nreg)
+				var perr error
+				w.exclusive("put-degraded", func() { perr = w.sh.Put(w.u.Build(w.u.Specs[id]), w.bin(id)) })
+				w.touched[id] = true
+				r.Op("put(o%d) in %s -> %v", id, mode.Degraded, errS(perr))
+			}
+			r.Probe("read-only mode entered from degraded read-write")
+		}
+		serr = nil
+	}
 	w.exclusive("setmode", func() { serr = w.sh.SetMode(target) })
 	r.Op("set mode %s -> %v (objects still in the cache before: %d)", target, errS(serr), inCache)
 	if serr != nil {
@@ -176,7 +193,20 @@ func runC14(r *simkit.R) {
 		var err error
 		var what string
 		mustFail := true
-		switch r.Weighted(14, 10, 10, 6, 6, 6, 6, 6, 14, 8) {
+		switch r.Weighted(14, 10, 10, 6, 6, 6, 6, 6, 14, 8, 6) {
+		case 10:
+			// a switch between the two read-only modes must not touch the data either (it may fail)
+			other := mode.ReadOnly
+			if target == mode.ReadOnly {
+				other = mode.DegradedReadOnly
+			}
+			what = fmt.Sprintf("set mode %s", other)
+			mustFail = false
+			w.exclusive(what, func() { err = w.sh.SetMode(other) })
+			if err == nil {
+				target = other
+				r.Probe("switched between the read-only modes")
+			}
 		case 0:
 			what = fmt.Sprintf("put(o%d)", id)
 			w.exclusive(what, func() { err = w.sh.Put(w.u.Build(w.u.Specs[id]), w.bin(id)) })
@@ -381,6 +411,11 @@ func runC43(r *simkit.R) {
 		tag := ""
 		if err != nil {
 			tag = " [after a switch that failed half-way]"
+			if fl == (modeFaults{}) && !hidden {
+				// (nothing was made to fail: the switch broke down by itself)
+				tag = " [after a switch that failed half-way although no component failure was injected]"
+				r.Probe("mode switch failed without an injected failure")
+			}
 		}
 		if (perr == nil) != wantPut {
 			r.Failf("mode", fmt.Sprintf("put %s in reported mode %s%s", acc(perr == nil), cur, tag), "the shard reports %s but a put is %s: %v", cur, acc(perr == nil), perr)
